@@ -21,6 +21,8 @@ var verifC06Tables = [][]verifRouteDef{
 	{},
 	// a literal route ending in "/*" below a prefix is an ordinary fixed route, not a fallback for that subtree
 	{{"/a/*", []string{"GET", "POST"}}, {"/*", []string{"GET"}}, {"/a/{v}", []string{"DELETE"}}},
+	// a dynamic route that allows HEAD matches directly; a static GET route for the same path is only the HEAD fallback
+	{{"/{v}", verifAllMethods}, {"/a", []string{"GET"}}, {"/b/{w}", []string{"HEAD"}}, {"/b/c", []string{"GET"}}},
 }
 
 func verifC06Options(opt int) []func(*Router) {
